@@ -66,6 +66,7 @@ class Contract:
         self.replay_fields: list[str] = []
         self.unmodelled: list[str] = []
         self.present_attrs: list[str] = []
+        self.local_specs: dict = {}
         self.record_result_specs: dict = {}  # result Spec of recorded calls (e.g. pairs)
         self.record_calls: list[str] = []  # callee texts whose calls are logged as ghost events: appended('<text>')
         self.transparent_with: list[str] = []
@@ -114,6 +115,11 @@ class Contract:
             ls.unroll = unroll
         if note:
             ls.note = note
+        return self
+
+    def local(self, name: str, spec: str):
+        """element type of a local list (the source carries no annotation); only the static spec, no facts"""
+        self.local_specs[name] = parse_spec(spec)
         return self
 
     def modifies(self, *locs: str):
